@@ -8,7 +8,7 @@ for p in $props; do
   for ab in a b; do
     k=$ka; [ $ab = b ] && k=$kb
     src="$rd/$p/out/$ab"; dst="seeded/$p-m$k"
-    [ -f "$src/patch.diff" ] && [ -f "$src/demo_test.go" ] || { echo "$p/$ab: not ready"; continue; }
+    [ -f "$src/patch.diff" ] && [ -f "$src/demo_test.go" ] && [ -f "$src/notes.md" ] || { echo "$p/$ab: not ready"; continue; }
     [ -d "$dst" ] && continue
     mkdir -p "$dst"; cp "$src/patch.diff" "$src/demo_test.go" "$dst/"; [ -f "$src/notes.md" ] && cp "$src/notes.md" "$dst/"
     echo "$p/$ab -> $dst"
